@@ -25,7 +25,14 @@ pub enum Ev {
     /// server delivers one message to consumer (index into consumers started so far)
     Deliver { c: u16, len: u16 },
     /// client cancels; the broker delivers `extra` more messages before CancelOk
-    ClientCancel { c: u16, extra: u8 },
+    ClientCancel {
+        c: u16,
+        extra: u8,
+        /// the server's own cancel notification for the same consumer (nowait = false) crosses the
+        /// client's cancel: it arrives right behind the CancelOk and must be answered too
+        #[serde(default)]
+        crossed: bool,
+    },
     /// drop the Consumer (implicit cancel); the receiver handle is kept by the harness
     DropConsumer {
         c: u16,
@@ -83,6 +90,9 @@ pub struct Broker {
     pub reuse_tags: bool,
     /// per channel: tags of consumers that have ended as far as the server is concerned
     pub free_tags: HashMap<u16, Vec<String>>,
+    /// tags whose client cancel is answered with CancelOk followed by the server's own
+    /// Basic.Cancel (nowait = false) for the same tag
+    pub crossed_cancel: std::collections::HashSet<String>,
 }
 
 impl Responder for Broker {
@@ -140,6 +150,14 @@ impl Responder for Broker {
                     if !v.contains(&ok.consumer_tag) {
                         v.push(ok.consumer_tag.clone());
                     }
+                    if self.crossed_cancel.remove(&ok.consumer_tag) {
+                        let tag = ok.consumer_tag.clone();
+                        io.send_glued(vec![
+                            AMQPFrame::Method(*ch, reply),
+                            AMQPFrame::Method(*ch, AMQPClass::Basic(Basic::Cancel(basic::Cancel { consumer_tag: tag, nowait: false }))),
+                        ]);
+                        return;
+                    }
                 }
                 io.send_method(*ch, reply);
             }
@@ -194,6 +212,7 @@ pub fn exec(c: &Case) -> Outcome {
         cross_close: HashMap::new(),
         reuse_tags: c.reuse_tags,
         free_tags: HashMap::new(),
+        crossed_cancel: Default::default(),
     };
     let mut sess = open_session(&ClientCfg::default(), ServerCfg::default(), vec![], broker);
     let mut conn = match sess.conn.take() {
@@ -285,7 +304,7 @@ pub fn exec(c: &Case) -> Outcome {
                         return Err("barrier failed after deliver".into());
                     }
                 }
-                Ev::ClientCancel { c, extra } | Ev::DropConsumer { c, extra, .. } => {
+                Ev::ClientCancel { c, extra, .. } | Ev::DropConsumer { c, extra, .. } => {
                     if recs.is_empty() {
                         continue;
                     }
@@ -308,7 +327,14 @@ pub fn exec(c: &Case) -> Outcome {
                         }
                         recs[k].exp_bodies.extend(bodies.iter().cloned());
                         let tag = recs[k].tag.clone();
+                        let crossed = matches!(ev, Ev::ClientCancel { crossed: true, .. });
+                        if crossed {
+                            server_cancels_with_reply.push((chan_ids[recs[k].ch_idx], tag.clone()));
+                        }
                         bh.call(move |r, _io| {
+                            if crossed {
+                                r.crossed_cancel.insert(tag.clone());
+                            }
                             r.extra_before_cancel_ok.insert(tag, bodies);
                         });
                         recs[k].exp_term = Some(Term::ClientCancelled);
@@ -736,7 +762,7 @@ fn strat(_t: Tier) -> BoxedStrategy<Case> {
     let ev = prop_oneof![
         5 => (0u8..3).prop_map(|ch| Ev::Consume { ch }),
         8 => (any::<u16>(), any::<u16>()).prop_map(|(c, len)| Ev::Deliver { c, len }),
-        3 => (any::<u16>(), 0u8..4).prop_map(|(c, extra)| Ev::ClientCancel { c, extra }),
+        3 => (any::<u16>(), 0u8..4, prop::bool::weighted(0.25)).prop_map(|(c, extra, crossed)| Ev::ClientCancel { c, extra, crossed }),
         3 => (any::<u16>(), 0u8..4, prop::bool::weighted(0.3)).prop_map(|(c, extra, unwinding)| Ev::DropConsumer { c, extra, unwinding }),
         1 => any::<u16>().prop_map(|c| Ev::Forget { c }),
         3 => (any::<u16>(), any::<bool>()).prop_map(|(c, nowait)| Ev::ServerCancel { c, nowait }),
@@ -760,7 +786,7 @@ fn strat(_t: Tier) -> BoxedStrategy<Case> {
 pub fn parts() -> Vec<Box<dyn PartDyn>> {
     vec![Box::new(Part::<Case> {
         name: "e2e",
-        rule: "histories of up to 40 events (consume, deliver, client cancel with 0-3 deliveries sent before CancelOk, second cancel, drop (with or without a kept receiver; ordinarily or by a panic unwinding through the owner), forget, server cancel nowait/not, client/server channel close, client/server connection close) over 1-3 channels, in 40 % of the sessions against a server that gives a new consumer the tag of an ended consumer of that channel, driven by one thread with FIFO barriers so the broker script is the single source of order; oracle: per consumer the receiver yields exactly the model's deliveries in order, one terminal naming the first cause, then disconnect; one Basic.Cancel per cancelled/dropped consumer, CancelOk per server cancel iff not nowait; non-trivial = a delivery between cancel and CancelOk or >=2 candidate terminal causes for one consumer; distinct by case hash",
+        rule: "histories of up to 40 events (consume, deliver, client cancel with 0-3 deliveries sent before CancelOk (a quarter of them crossed by the server's own cancel notification for the same consumer, which arrives right behind the CancelOk and must be answered), second cancel, drop (with or without a kept receiver; ordinarily or by a panic unwinding through the owner), forget, server cancel nowait/not, client/server channel close, client/server connection close) over 1-3 channels, in 40 % of the sessions against a server that gives a new consumer the tag of an ended consumer of that channel, driven by one thread with FIFO barriers so the broker script is the single source of order; oracle: per consumer the receiver yields exactly the model's deliveries in order, one terminal naming the first cause, then disconnect; one Basic.Cancel per cancelled/dropped consumer, CancelOk per server cancel iff not nowait; non-trivial = a delivery between cancel and CancelOk or >=2 candidate terminal causes for one consumer; distinct by case hash",
         cases: |t| t.pick(4000, 60_000),
         threads: 16,
         strategy: strat,
